@@ -50,7 +50,10 @@ def r1_traversal(ctx):
         ctx.check(False, 'R1', f.loc, f.qualname, 'traversal-shape', '', 'dfs_iterative is not a single work-list loop')
         return
     w = whiles[0]
-    stack = src(w.test) if isinstance(w.test, ast.Name) else None
+    stack = None
+    tf = G._formula(w.test)
+    if tf[0] == 'atom':         # `while stack:` / `while len(stack) > 0:`
+        stack = tf[1][len('nonempty('):-1] if tf[1].startswith('nonempty(') else tf[1]
     init = [a for a in inits if F.is_name(a.targets[0], stack)]
     ctx.check(bool(init) and src(init[0].value) in ('[self]', 'deque([self])'), 'R1', f.loc, f.qualname, 'traversal-starts-at-node',
               'the work list starts with the node itself')
@@ -204,15 +207,19 @@ def r3_siblings(ctx):
     ctx.check(ok, 'R3', si.loc, si.qualname, 'derived:get_spine_ids', 'get_spine_ids = spine ids of the header nodes, in order')
     fr = ctx.prog.func(f'{DOC}.frequencies')
     p = fr.params[1]
+    env_fr = G.single_assignments(fr.node)
     loops = [n for n in walk_local(fr.node) if isinstance(n, ast.For)]
-    okf = len(loops) == 1 and src(loops[0].iter) in ('tokens',) and any(
-        isinstance(n, ast.Assign) and F.is_name(n.targets[0], 'tokens') and F.same(ctx, fr, n.value, f'self.get_all_tokens({p})') for n in walk_local(fr.node))
+    rets_fr = [n for n in walk_local(fr.node) if isinstance(n, ast.Return)]
+    D = rets_fr[0].value.id if len(rets_fr) == 1 and isinstance(rets_fr[0].value, ast.Name) else None
+    okf = len(loops) == 1 and D is not None and isinstance(loops[0].target, ast.Name) \
+        and F.same(ctx, fr, G.substitute(loops[0].iter, env_fr), f'self.get_all_tokens({p})') \
+        and any(isinstance(n, ast.Assign) and F.is_name(n.targets[0], D) and src(n.value) in ('{}', 'dict()') for n in walk_local(fr.node))
     if okf:
         t = loops[0].target.id
-        for sp in symex.sym_paths(loops[0].body):
+        for sp in symex.sym_paths(loops[0].body, fi=fr):
             adds = [e for e in sp.events if e.kind in ('store',)]
             fm = sp.condition()
-            a = f'{t}.encoding in frequencies'
+            a = f'{t}.encoding in {D}'
             ats = G.atoms_of(fm)
             if ats != [a] or len(adds) != 1:
                 okf = False
@@ -220,9 +227,9 @@ def r3_siblings(ctx):
             e = adds[0]
             if G.evaluate(fm, {a: True}):
                 okf = okf and isinstance(e.node, ast.AugAssign) and isinstance(e.node.op, ast.Add) and src(e.node.value) == '1' \
-                    and src(e.node.target) == f"frequencies[{t}.encoding]['occurrences']"
+                    and src(e.node.target) == f"{D}[{t}.encoding]['occurrences']"
             else:
-                okf = okf and isinstance(e.node, ast.Assign) and src(e.node.targets[0]) == f'frequencies[{t}.encoding]' \
+                okf = okf and isinstance(e.node, ast.Assign) and src(e.node.targets[0]) == f'{D}[{t}.encoding]' \
                     and isinstance(e.node.value, ast.Dict) and "'occurrences': 1" in src(e.node.value)
     ctx.check(okf, 'R3', fr.loc, fr.qualname, 'frequencies-count',
               'every token of the (filtered) listing adds exactly 1 to exactly one entry: the counts sum to the listing',
@@ -231,34 +238,47 @@ def r3_siblings(ctx):
 
 # --------------------------------------------------------------------------- R4
 def r4_comments(ctx):
+    """get_metacomments: the returned list is, element by element and in traversal order, the comments of a fresh
+    MetacommentsTraversal run over the tree, kept iff no key is given or the text starts with '!!!' + key."""
+    from . import export_model as EM
+    from .. import seqs
     gm = ctx.prog.func(f'{DOC}.get_metacomments')
     key = gm.params[1]
-    trav = any(isinstance(n, ast.Expr) and src(n.value) == 'self.tree.dfs_iterative(traversal)' for n in walk_local(gm.node)) and \
-        any(isinstance(n, ast.Assign) and src(n) == 'traversal = MetacommentsTraversal()' for n in walk_local(gm.node))
-    loops = [n for n in walk_local(gm.node) if isinstance(n, ast.For) and src(n.iter) == 'traversal.metacomments']
-    ok = trav and len(loops) == 1
-    if ok:
-        v = loops[0].target.id
-        for sp in symex.sym_paths(loops[0].body):
-            fm = sp.condition()
-            apps = [src(e.expr) for e in sp.events if e.kind == 'expr' and isinstance(e.expr, ast.Call)]
-            naming = {f'{key} is None': 'nokey', f"{v}.encoding.startswith(f'!!!{{{key}}}')": 'match', 'clear': 'clear'}
-            ats = G.atoms_of(fm)
-            if not set(ats) <= set(naming):
-                ok = False
+    ok = True
+    why = ''
+    n = 0
+    for cond, val, sp in symex.returns(gm):
+        n += 1
+        trav = [e for e in sp.events if e.kind == 'expr' and isinstance(e.expr, ast.Call) and src(e.expr.func) == 'self.tree.dfs_iterative'
+                and len(e.expr.args) == 1 and src(e.expr.args[0]) == 'MetacommentsTraversal()']
+        q = EM.describe(val, {'MetacommentsTraversal().metacomments'})
+        if len(trav) != 1 or q is None or q.sorts or q.sliced or q.hashed:
+            ok, why = False, f'returns `{src(val)[:80]}`'
+            continue
+        a_nokey, a_match = f'{key} is None', f"_e.encoding.startswith(f'!!!{{{key}}}')"
+        fm = q.filter()
+        pc = sp.condition()
+        elt_atoms = [a for t in ast.walk(q.elt) if isinstance(t, ast.IfExp) for a in G.atoms_of(G._formula(t.test))]
+        ats = sorted(set(G.atoms_of(fm)) | set(G.atoms_of(pc)) | set(elt_atoms))
+        if not set(ats) <= {a_nokey, a_match, 'clear'}:
+            ok, why = False, f'depends on {sorted(set(ats) - {a_nokey, a_match, "clear"})}'
+            continue
+        for bits in itertools.product([False, True], repeat=len(ats)):
+            v = dict(zip(ats, bits))
+            if not G.evaluate(pc, {a: v[a] for a in G.atoms_of(pc)}):
                 continue
-            for bits in itertools.product([False, True], repeat=len(ats)):
-                val = dict(zip(ats, bits))
-                if not G.evaluate(fm, val):
-                    continue
-                keep = val.get(f'{key} is None', False) or val.get(f"{v}.encoding.startswith(f'!!!{{{key}}}')", False)
-                if keep != (len(apps) == 1 and apps[0].startswith('result.append(')):
-                    ok = False
-    ctx.check(ok, 'R4', gm.loc, gm.qualname, 'comment-query',
-              "get_metacomments keeps traversal order and keeps a comment iff no key is given or it starts with '!!!' + key")
-    rets = symex.returns(gm)
-    ctx.check(all(src(v) == 'result' or 'result' in src(sp.path.end_node) for _, v, sp in rets), 'R4', gm.loc, gm.qualname,
-              'comment-query-returns-list', 'the list is returned in construction order')
+            keep = G.evaluate(fm, {a: v[a] for a in G.atoms_of(fm)})
+            want = v.get(a_nokey, False) or v.get(a_match, False)
+            if keep != want:
+                ok, why = False, f'kept={keep} for {v}'
+            if keep and want:
+                leaf = src(seqs.select(q.elt, v))
+                good = leaf == (f"_e.encoding.replace(f'!!!{{{key}}}: ', '')" if v.get('clear', False) else '_e.encoding')
+                if not good:
+                    ok, why = False, f'element `{leaf}` for {v}'
+    ctx.check(ok and n > 0, 'R4', gm.loc, gm.qualname, 'comment-query',
+              "get_metacomments keeps traversal order and keeps a comment iff no key is given or it starts with '!!!' + key", why)
+
 
 
 # --------------------------------------------------------------------------- R5
